@@ -22,7 +22,7 @@ func urlCorpus(rng *rand.Rand, n int) []string {
 	schemes := []string{"http", "https", "mailto", "javascript", "JAVASCRIPT", "data", "ftp", "vbscript", "tel", "x-y", "1a", "a+b.c-d", "", "ht tp"}
 	pre := []string{"", " ", "\t", "\n", "\x00", "\x01", "\x1f", " ", "　", "\ufeff", "\r\n"}
 	mid := []string{"", "\t", "\n", "\r", " ", "%0a", "\x00", "&#9;"}
-	rest := []string{"//example.org/p?q#f", "alert(1)", "//h", "", "/", "a@b", "text/html,x", "image/png;base64,AAAA", "image/gif;base64,AA A=", "//[::1]:80/", "//u:p@h:8/", "\\\\h\\p", "//h/%41%zz", "?x", "#y", "//exa mple.org/", "//xn--nxasmq6b/", "//h/\x7f", "//h/ftp", "alert('ftp')//x-y", "//evil.example/-y", "ftp"}
+	rest := []string{"//example.org/p?q#f", "alert(1)", "//h", "", "/", "a@b", "text/html,x", "image/png;base64,AAAA", "image/gif;base64,AA A=", "//[::1]:80/", "//u:p@h:8/", "\\\\h\\p", "//h/%41%zz", "?x", "#y", "//exa mple.org/", "//xn--nxasmq6b/", "//h/\x7f", "//h/ftp", "alert('ftp')//x-y", "//evil.example/-y", "ftp", "/**/alert(1)", "///x", "/x"}
 	for i := 0; i < n; i++ {
 		sc := pick(rng, schemes)
 		if len(sc) > 1 && rng.Intn(3) == 0 {
@@ -626,10 +626,10 @@ func firstDiffLine(a, b string) string {
 // ---- entry mode: the four entry points, chunkings, writer kinds, cmd tools (C15) -------------------------
 
 type chunkReader struct {
-	data   string
-	splits []int // chunk lengths (0 allowed)
+	data        string
+	splits      []int // chunk lengths (0 allowed)
 	eofWithData bool
-	i      int
+	i           int
 }
 
 func (r *chunkReader) Read(p []byte) (int, error) {
